@@ -90,15 +90,16 @@ def fam_relay(w: World) -> None:
     n_posts = 1 + ch.draw(3, 'posts')
     bp_prefix = ch.choice([None, None, '/mounted'], 'flask.blueprint_prefix')
     earlier_app = ch.flag(1, 3, 'flask.earlier_app')
+    aio_mounted = ch.choice([None, None, '/myapp'], 'aiohttp.mounted')
     S.plan_pauses(w, {'async': True, 'middlewares': [], 'handlers': {}}, 5)
     w.scenario = {'status_fn': status_fn, 'path': path, 'sub': sub, 'max_batch_size': max_batch, 'posts': [],
                   'flask_blueprint_prefix': bp_prefix, 'flask_earlier_app': earlier_app,
-                  'flask_sub_blueprint': sub_blueprint}
+                  'flask_sub_blueprint': sub_blueprint, 'aiohttp_mounted': aio_mounted}
     hops: Dict[str, Any] = {}
     for name in ('aiohttp', 'flask', 'werkzeug'):
         kwargs = {'max_batch_size': max_batch}
         if name == 'aiohttp':
-            hops[name] = H.AiohttpHop(w, path, sub, status_fn, kwargs, flavour)
+            hops[name] = H.AiohttpHop(w, path, sub, status_fn, kwargs, flavour, mounted=aio_mounted)
         elif name == 'flask':
             hops[name] = H.FlaskHop(w, path, sub, status_fn, kwargs, blueprint_prefix=bp_prefix, earlier_app=earlier_app,
                                     sub_blueprint=sub_blueprint)
